@@ -48,6 +48,12 @@ CLAIMED = {
         note="Trusted: go/ssa, the interpreter and window model, the small-model bound (offsets in the code are ±1, K=3 quick / 5 thorough), rune range (to+1 cannot overflow).",
         technique="static analysis: inductive invariant discharged by finite-world abstract interpretation over orderings with gaps",
         design="§4 C18, §3 E2/E3"),
+    "C01": dict(
+        level="other",
+        text="Partial, structural: the loop-free decisions around the lexer automaton are decided in every abstract world: pattern priority among completed items (string literal > earlier declaration > later; regular definitions never accept) and its mapping to Accept/Ignore (R01.1); an item moves on a class iff the class lies inside its literal/range, '.' only on the default arm (R01.2); action-table sentinels written = sentinels Scan tests, INVALID = 0 (R01.3); transition-table writer and template: one case per class in order, default iff '.', NoState otherwise (R01.4); the generated Scan loop, plain and debug, as a transfer table (R01.5).",
+        note="NOT decided: that the DFA is the subset construction of the patterns (Closure, Next, Emoves, dependentsClosure, set identity) — graph algorithms over unbounded item sets. Trusted: go/ssa, checker/sx.go, the generated model.",
+        technique="static analysis: decision/transfer-table extraction by finite-world abstract interpretation of SSA (repo code and instantiated templates)",
+        design="§4 C01, Appendix A.1"),
     "C02": dict(
         level="other",
         text="Partial, structural: decides the loop-free decisions between the LR(1) item sets and the running parser, for every combination of their abstract inputs: Item.action = Dragon-book Alg. 4.56 + INVALID column (R02.1); body length assumed by the automaton = NumSymbols popped by the parser (R02.2); every table writer renders each action kind into the right constructor and column, goto cells follow NTType's index (R02.3); the generated Parse loop, in all four debug/zip variants, is the LR driver (R02.4); augmentation and initial item (R02.5). These are necessary conditions of the property: breaking any of them breaks acceptance for some grammar.",
